@@ -139,11 +139,57 @@ def rule_inv(ctx, rep):
 
 THOROUGH_CONFIGS = [("default", ()), ("dereference-volatile", ("-DURCU_DEREFERENCE_USE_VOLATILE=1",))]
 
+# expected post-state of each update primitive over the pre-state (generic, non-aliased case): {location: value}; entries
+# marked optional exist only on the path where the neighbour is non-NULL (hlist)
+POST = {
+    "w_list_add_rcu": ({"arg0.next": "pre(arg1.next)", "arg0.prev": "arg1", "pre(arg1.next).prev": "arg0", "arg1.next": "arg0"}, set()),
+    "w_list_add_tail_rcu": ({"arg0.next": "arg1", "arg0.prev": "pre(arg1.prev)", "pre(arg1.prev).next": "arg0", "arg1.prev": "arg0"}, set()),
+    "w_list_replace_rcu": ({"arg1.next": "pre(arg0.next)", "arg1.prev": "pre(arg0.prev)", "pre(arg0.prev).next": "arg1", "pre(arg0.next).prev": "arg1"}, set()),
+    "w_list_del_rcu": ({"pre(arg0.next).prev": "pre(arg0.prev)", "pre(arg0.prev).next": "pre(arg0.next)"}, set()),
+    "w_hlist_add_head_rcu": ({"arg0.next": "pre(arg1.next)", "arg0.prev": "arg1", "arg1.next": "arg0", "pre(arg1.next).prev": "arg0"}, {"pre(arg1.next).prev"}),
+    "w_hlist_del_rcu": ({"pre(arg0.prev).next": "pre(arg0.next)", "pre(arg0.next).prev": "pre(arg0.prev)"}, {"pre(arg0.next).prev"}),
+}
+
+
+def rule_post(ctx, rep):
+    """Symbolic post-state of the update primitives (store-forwarding walk of each path, sa/symheap.py): the doubly-linked
+    structure the *updater* relies on is exact - forward and backward pointers of the new node and of both neighbours.  A
+    back-pointer fix-up done through an already re-written forward pointer leaves stale ->prev links: readers never follow
+    them, but the next cds_list_del_rcu / replace_rcu unlinks through them and drops or keeps the wrong node."""
+    from .. import symheap
+    m = ctx.mod("w_rculist", "flat")
+    for name, (want, optional) in POST.items():
+        f = m.fn(name)
+        pat.require(f is not None, "witness %s vanished" % name)
+        rep.touch(f)
+        states = symheap.post_states(f)
+        union = {}
+        bad = []
+        for p, mem, order in states:
+            for k, v in mem.items():
+                if want.get(k) != v:
+                    bad.append((k, v, [i for l, i in order if l == k][-1]))
+                union[k] = v
+            missing = [k for k in want if k not in mem and k not in optional]
+            for k in missing:
+                bad.append((k, "<not written>", f.rets()[0]))
+        for k in optional:
+            if k not in union:
+                bad.append((k, "<never written>", f.rets()[0]))
+        tag = name[2:]
+        if not bad:
+            rep.ok("C18.post", tag, "post-state exact on %d path(s): %s" % (len(states), ", ".join("%s=%s" % kv for kv in sorted(want.items()))), [f.name])
+        else:
+            k, v, site = bad[0]
+            rep.bad("C18.post", tag, "after %s, %s is %s (specified: %s): the list's back/forward links are inconsistent for the next update" % (tag, k, v, want.get(k, "untouched")), [site.where()])
+
+
 RULES = [
     ("C18.inv", rule_inv),
     ("C18.pub", rule_pub),
     ("C18.del", rule_del),
     ("C18.del", rule_replace_old),
     ("C18.trav", rule_trav),
+    ("C18.post", rule_post),
 ]
 FLOORS = {}
